@@ -33,8 +33,8 @@ Lemma exec_insert_cat fk c dst cs src ex c2 : exec fk c (SInsertSelect dst cs sr
 Proof.
   cbn [exec]. destruct (find_ctable dst c); [|discriminate]. destruct (find_ctable src c); [|discriminate].
   destruct (find _ cs); [discriminate|].
-  destruct (find _ ex) as [[?|? ?]|]; try discriminate;
-    (destruct (negb (Nat.eqb _ _)); [discriminate|]); (destruct (fk && _)%bool; [discriminate|]); intro H; now injection H.
+  destruct (find _ ex) as [[?|? ?]|]; try discriminate.
+  destruct (negb (Nat.eqb _ _)); [discriminate|]. destruct (fk && _)%bool; [discriminate|]. intro H; now injection H.
 Qed.
 
 Lemma exec_drop_cat fk c t c3 :
